@@ -182,9 +182,30 @@ func c16Lookup(c C16Case, tok *biscuit.Biscuit, pub ed25519.PublicKey, want *uin
 		}
 		return k, nil
 	}
-	for _, via := range []string{"WithRootPublicKeys", "custom projection"} {
+	// a verifier keeps one projection value and uses it for every token it sees: the token seen
+	// just before (one with an identifier if ours has none, one without if ours has one) leaves
+	// nothing behind in it
+	_, priv := bridge.RootKey(c.Spec.RootSeed)
+	var decoyID *uint32
+	if want == nil {
+		d := uint32(7)
+		for _, e := range c.Map {
+			d = e.ID
+			break
+		}
+		decoyID = &d
+	}
+	decoy, derr := bridge.BuildAuthority(priv, bridge.NewDetRand(c.Spec.RngKey+4242), m.Block{}, decoyID)
+	if derr != nil {
+		return cls, obs.Violf("%s: cannot build the decoy token: %v", desc, derr)
+	}
+	kept := biscuit.WithRootPublicKeys(keys, def)
+	for _, via := range []string{"WithRootPublicKeys", "custom projection", "kept projection"} {
 		var aerr error
-		if via == "custom projection" {
+		if via == "kept projection" {
+			_, _ = decoy.AuthorizerFor(kept, bridge.WorldOpts())
+			_, aerr = tok.AuthorizerFor(kept, bridge.WorldOpts())
+		} else if via == "custom projection" {
 			_, aerr = tok.AuthorizerFor(custom, bridge.WorldOpts())
 			if len(asked) != 1 || !sameID(asked[0], want) {
 				ids := []string{}
@@ -272,7 +293,7 @@ func drawC16(t *rapid.T) C16Case {
 func TestC16(t *testing.T) {
 	rec := obs.New("C16")
 	defer rec.Flush(true)
-	rec.SetExtra("rule", "rapid: identifier in {absent, 0, 1, 2, 2^31, 2^32-2, 2^32-1, random} (given before the random-source option for odd ids, after it for even ids) x derivation history of 0-6 append / seal / serialize+unmarshal steps x key map of 0-4 entries (right or wrong key under the token's id, under id+-1, under unrelated ids) x default key {none, right, wrong}. Oracle: RootKeyID() and the independently decoded rootKeyId equal the creation id after every step; after every step AuthorizerFor, through WithRootPublicKeys and through a caller-written projection (which must be asked exactly once, for exactly the token's identifier, and answers (nil, nil) when it has no key), succeeds iff the reference projection selects the real root key, fails with ErrNoPublicKeyAvailable iff it selects nothing, fails with another error iff it selects a wrong key; WithSingularRootPublicKey ignores the identifier. Non-trivial = derived token (>=1 append or seal) carrying an id, looked up in a map with >= 2 entries; distinct by (id, history, map, default).")
+	rec.SetExtra("rule", "rapid: identifier in {absent, 0, 1, 2, 2^31, 2^32-2, 2^32-1, random} (given before the random-source option for odd ids, after it for even ids) x derivation history of 0-6 append / seal / serialize+unmarshal steps x key map of 0-4 entries (right or wrong key under the token's id, under id+-1, under unrelated ids) x default key {none, right, wrong}. Oracle: RootKeyID() and the independently decoded rootKeyId equal the creation id after every step; after every step AuthorizerFor, through WithRootPublicKeys (a fresh value, and one kept value that is first used for a decoy token of the opposite identifier situation) and through a caller-written projection (which must be asked exactly once, for exactly the token's identifier, and answers (nil, nil) when it has no key), succeeds iff the reference projection selects the real root key, fails with ErrNoPublicKeyAvailable iff it selects nothing, fails with another error iff it selects a wrong key; WithSingularRootPublicKey ignores the identifier. Non-trivial = derived token (>=1 append or seal) carrying an id, looked up in a map with >= 2 entries; distinct by (id, history, map, default).")
 	rec.SetExtra("assumptions", []string{"the independent wire reader gives the serialized identifier"})
 	harness.RunWith(t, harness.Spec[C16Case]{ID: "C16", Draw: drawC16, Check: checkC16}, rec)
 }
